@@ -1,10 +1,26 @@
 (* C16 — soft-wrapping preserves the text and respects the width.
-   Statements only; proofs live in proofs/SoftwrapProofs.v. *)
+   Statements only; proofs live in proofs/SoftwrapProofs.v.
+
+   Vocabulary (model/Softwrap.v, proofs/SoftwrapProofs.v):
+   - a text is a list of cells = grapheme clusters with width (and style for rich text);
+   - plain_scan orc W input / rich_scan pairbrk W input: the lines emitted by the loop
+     `for scanner.Scan() {...}` of vxfw/text resp. vxfw/richtext, each paired with len(rest)
+     after that Scan, and the outcome (Done / Hang / Miss);  cuts_of N lines = the numbers of cells
+     consumed after each Scan;
+   - orc i st = uniseg.FirstLineSegment(suffix at cluster i, state st) as (length, mustBreak, state),
+     pairbrk a b = "FirstLineSegmentInString(a+b,-1) leaves a rest": arbitrary functions (oracles);
+   - text_ok input W: 0 <= W < 65536, widths >= 0, total width < 65536 (the code adds in uint16;
+     C16_width_bound_needed shows the bound cannot be dropped);
+   - B: break opportunities, Hd: mandatory breaks, as positions in the text.
+   Whitespace is unicode.IsSpace of the last rune of a cell; a trailing line break is
+   uniseg.HasTrailingLineBreak (LF and CR in the pinned uniseg). *)
 From Vx Require Import base.Prelude model.Softwrap proofs.SoftwrapProofs.
 
-(* text.SoftwrapScanner: for every text, width and segment oracle that reports a must-break at
-   the end of the text (uniseg: LB3), the loop of Scan and the loop calling Scan both stop
-   (fuel = remaining clusters + 1 is never exhausted). *)
+(* ---------------- termination ---------------- *)
+
+(* text.SoftwrapScanner: for every text, width and oracle that reports a must-break for the
+   segment reaching the end of the text (uniseg: LB3), neither the loop inside Scan nor the loop
+   calling Scan runs out of fuel (fuel = remaining clusters + 1). No bound on widths is needed. *)
 Theorem C16_plain_scan_terminates :
   forall (orc : Z -> Z -> option (Z * bool * Z)) (is_space hasbreak : cell -> bool)
          (residue : cell -> list cell) (W : Z) (input : list cell),
@@ -21,3 +37,188 @@ Theorem C16_rich_scan_terminates :
     snd (run unit (rich_segf hasbreak pairbrk) (fun s => s) is_space hasbreak residue W input tt) <> Hang.
 Proof. intros; apply rich_terminates; auto. Qed.
 Print Assumptions C16_rich_scan_terminates.
+
+(* with an oracle that answers every query in range the scan ends regularly (Done) *)
+Theorem C16_plain_scan_done :
+  forall orc input W, orc_end_ok (length input) orc -> text_ok input W -> orc_total orc input ->
+    snd (plain_scan orc W input) = Done.
+Proof. intros; apply plain_done; auto. Qed.
+Print Assumptions C16_plain_scan_done.
+
+Theorem C16_rich_scan_done :
+  forall pairbrk input W, text_ok input W -> (forall a b, pairbrk a b <> None) ->
+    snd (rich_scan pairbrk W input) = Done.
+Proof. intros; apply rich_done; auto. Qed.
+Print Assumptions C16_rich_scan_done.
+
+(* ---------------- line_fits ---------------- *)
+(* every emitted line, ignoring trailing whitespace, is at most W columns wide, unless what
+   remains is a single grapheme *)
+Theorem C16_plain_line_fits :
+  forall orc input W lines o,
+    orc_end_ok (length input) orc -> text_ok input W -> forallb plain_cell_ok input = true ->
+    plain_scan orc W input = (lines, o) ->
+    forall l r, In (l, r) lines ->
+      sumw (trim_right cell_is_space l) <= W \/ (length (trim_right cell_is_space l) <= 1)%nat.
+Proof. intros orc input W lines o He Ht Hc H. exact (proj1 (plain_lines orc input W He Ht Hc lines o H)). Qed.
+Print Assumptions C16_plain_line_fits.
+
+Theorem C16_rich_line_fits :
+  forall pairbrk input W lines o,
+    text_ok input W -> rich_scan pairbrk W input = (lines, o) ->
+    forall l r, In (l, r) lines ->
+      sumw (trim_right cell_is_space l) <= W \/ (length (trim_right cell_is_space l) <= 1)%nat.
+Proof. intros pairbrk input W lines o Ht H. exact (proj1 (rich_lines pairbrk input W Ht lines o H)). Qed.
+Print Assumptions C16_rich_line_fits.
+
+(* ---------------- conservation ---------------- *)
+(* plain text (a string): the non-whitespace code points of the lines, concatenated, are those of
+   the input in order (W = 0: Scan refuses and nothing is emitted, see C16_width0_emits_nothing) *)
+Theorem C16_plain_conservation :
+  forall orc input W lines,
+    orc_end_ok (length input) orc -> text_ok input W -> forallb plain_cell_ok input = true ->
+    plain_scan orc W input = (lines, Done) -> W <> 0 ->
+    nonspace_runes (concat (map fst lines)) = nonspace_runes input.
+Proof. intros orc input W lines He Ht Hc H HW. exact (proj2 (plain_lines orc input W He Ht Hc lines Done H) eq_refl HW). Qed.
+Print Assumptions C16_plain_conservation.
+
+(* rich text: the non-whitespace cells (grapheme, width and style) *)
+Theorem C16_rich_conservation :
+  forall pairbrk input W lines,
+    text_ok input W -> rich_scan pairbrk W input = (lines, Done) -> W <> 0 ->
+    nonspace cell_is_space (concat (map fst lines)) = nonspace cell_is_space input.
+Proof. intros pairbrk input W lines Ht H HW. exact (proj2 (rich_lines pairbrk input W Ht lines Done H) eq_refl HW). Qed.
+Print Assumptions C16_rich_conservation.
+
+(* ---------------- no_needless_split ---------------- *)
+(* If the answers of the oracle (in the states the scanner can be in: -1 anywhere, or threaded)
+   agree with a set B of break opportunities, then a line never ends inside a segment [a,e)
+   (between two neighbouring opportunities) unless the word of that segment is wider than W. *)
+Theorem C16_plain_no_needless_split :
+  forall orc input W B Hd lines o,
+    orc_end_ok (length input) orc -> text_ok input W -> forallb plain_cell_ok input = true ->
+    orc_consistent orc input B Hd ->
+    (forall e, (e < length input)%nat -> Hd e = true -> B e = true) ->
+    plain_scan orc W input = (lines, o) ->
+    forall c, In c (cuts_of (length input) lines) -> c <> length input -> B c = false ->
+    forall a e, (a < c < e)%nat -> (e <= length input)%nat ->
+      (a = 0%nat \/ B a = true) -> (e = length input \/ B e = true) ->
+      (forall q, (a < q < e)%nat -> B q = false) ->
+      W < sumw (trim_right cell_is_space (sub input a e)).
+Proof.
+  intros orc input W B Hd lines o He Ht Hc Hcons HdB H.
+  exact (proj1 (plain_cuts orc input W He Ht Hc B Hd Hcons HdB lines o H)).
+Qed.
+Print Assumptions C16_plain_no_needless_split.
+
+(* for rich text the break opportunities are those firstLineSegment derives from the pairwise
+   oracle (rich_B); no hypothesis is needed *)
+Theorem C16_rich_no_needless_split :
+  forall pairbrk input W lines o,
+    text_ok input W -> rich_scan pairbrk W input = (lines, o) ->
+    let B := rich_B cell_hasbreak pairbrk input in
+    forall c, In c (cuts_of (length input) lines) -> c <> length input -> B c = false ->
+    forall a e, (a < c < e)%nat -> (e <= length input)%nat ->
+      (a = 0%nat \/ B a = true) -> (e = length input \/ B e = true) ->
+      (forall q, (a < q < e)%nat -> B q = false) ->
+      W < sumw (trim_right cell_is_space (sub input a e)).
+Proof. intros pairbrk input W lines o Ht H. exact (proj1 (rich_cuts pairbrk input W Ht lines o H)). Qed.
+Print Assumptions C16_rich_no_needless_split.
+
+(* ---------------- hard_break_ends_line ---------------- *)
+(* every position after which the text must break (Hd) is the end of a Scan: the current line ends
+   there and the next line starts after it *)
+Theorem C16_plain_hard_break_ends_line :
+  forall orc input W B Hd lines,
+    orc_end_ok (length input) orc -> text_ok input W -> forallb plain_cell_ok input = true ->
+    orc_consistent orc input B Hd ->
+    (forall e, (e < length input)%nat -> Hd e = true -> B e = true) ->
+    plain_scan orc W input = (lines, Done) -> W <> 0 ->
+    forall e, (0 < e <= length input)%nat -> Hd e = true -> In e (cuts_of (length input) lines).
+Proof.
+  intros orc input W B Hd lines He Ht Hc Hcons HdB H HW.
+  exact (proj2 (plain_cuts orc input W He Ht Hc B Hd Hcons HdB lines Done H) eq_refl HW).
+Qed.
+Print Assumptions C16_plain_hard_break_ends_line.
+
+(* rich text: after every cell that ends with a line break *)
+Theorem C16_rich_hard_break_ends_line :
+  forall pairbrk input W lines,
+    text_ok input W -> rich_scan pairbrk W input = (lines, Done) -> W <> 0 ->
+    forall e, (0 < e <= length input)%nat -> rich_Hd cell_hasbreak input e = true ->
+      In e (cuts_of (length input) lines).
+Proof. intros pairbrk input W lines Ht H HW. exact (proj2 (rich_cuts pairbrk input W Ht lines Done H) eq_refl HW). Qed.
+Print Assumptions C16_rich_hard_break_ends_line.
+
+(* ---------------- the model satisfies the predicate the harness evaluates on observations ---------------- *)
+Theorem C16_plain_observation_ok :
+  forall orc input B Hd W lines,
+    orc_end_ok (length input) orc -> 0 <= W < 65536 -> wok input -> sumw input < 65536 ->
+    forallb plain_cell_ok input = true -> orc_consistent orc input B Hd ->
+    (forall e, (e < length input)%nat -> Hd e = true -> B e = true) ->
+    plain_scan orc W input = (lines, Done) ->
+    c16_ok_b cell_is_space same_runes B Hd W input lines = true.
+Proof. intros; eapply plain_run_ok; eauto. Qed.
+Print Assumptions C16_plain_observation_ok.
+
+Theorem C16_rich_observation_ok :
+  forall pairbrk input W lines,
+    0 <= W < 65536 -> wok input -> sumw input < 65536 ->
+    rich_scan pairbrk W input = (lines, Done) ->
+    c16_ok_b cell_is_space (same_cells cell_is_space) (rich_B cell_hasbreak pairbrk input)
+             (rich_Hd cell_hasbreak input) W input lines = true.
+Proof. intros; eapply rich_run_ok; eauto. Qed.
+Print Assumptions C16_rich_observation_ok.
+
+(* the hypotheses about the oracle are decidable on a table of its answers (the harness ships one
+   per case; plain_hyps_b in model/Softwrap.v evaluates them) *)
+Theorem C16_table_hypotheses :
+  forall input B Hd tbl,
+    (tbl_end_ok_b (length input) tbl = true -> orc_end_ok (length input) (tbl_orc tbl)) /\
+    (tbl_consistent_b (length input) B Hd tbl = true -> orc_consistent (tbl_orc tbl) input B Hd).
+Proof. intros; split; [apply tbl_end_ok|apply tbl_consistent]. Qed.
+Print Assumptions C16_table_hypotheses.
+
+(* ---------------- width 0, hard wrap, the uint16 bound ---------------- *)
+Theorem C16_width0_emits_nothing :
+  forall orc pairbrk input,
+    plain_scan orc 0 input = ([], Done) /\ rich_scan pairbrk 0 input = ([], Done).
+Proof. intros; split; apply run_width0. Qed.
+Print Assumptions C16_width0_emits_nothing.
+
+(* HardwrapScanner: no emitted line contains a newline cell and nothing but newline cells is lost *)
+Theorem C16_hardwrap_lines :
+  forall cells,
+    Forall (fun l => filter (fun c => negb (is_newline c)) l = l) (hard_run cells) /\
+    filter (fun c => negb (is_newline c)) (concat (hard_run cells)) = filter (fun c => negb (is_newline c)) cells.
+Proof. exact hard_run_spec. Qed.
+Print Assumptions C16_hardwrap_lines.
+
+(* line_fits fails for a word whose columns add up to 65536: the bound in text_ok is needed *)
+Theorem C16_width_bound_needed :
+  wok wide_input /\ sumw wide_input = 65536 /\ orc_end_ok (length wide_input) wide_orc /\
+  exists lines, plain_scan wide_orc 1 wide_input = (lines, Done) /\
+                exists l r, In (l, r) lines /\ fits_b cell_is_space 1 l = false.
+Proof. exact u16_bound_needed. Qed.
+Print Assumptions C16_width_bound_needed.
+
+(* ---------------- non-vacuity ---------------- *)
+(* the hypotheses hold for uniseg's own tables of "x ab-cd" (break opportunities after "x " and
+   "ab-") and of "foo\nbar" (mandatory break after the newline), at width 2 *)
+Example C16_hypotheses_satisfiable :
+  (orc_end_ok (length ex1_input) (tbl_orc ex1_tbl) /\ text_ok ex1_input 2 /\
+   forallb plain_cell_ok ex1_input = true /\ orc_consistent (tbl_orc ex1_tbl) ex1_input ex1_B ex1_Hd /\
+   (forall e, (e < length ex1_input)%nat -> ex1_Hd e = true -> ex1_B e = true)) /\
+  (orc_end_ok (length ex2_input) (tbl_orc ex2_tbl) /\ text_ok ex2_input 2 /\
+   forallb plain_cell_ok ex2_input = true /\ orc_consistent (tbl_orc ex2_tbl) ex2_input ex2_B ex2_Hd /\
+   (forall e, (e < length ex2_input)%nat -> ex2_Hd e = true -> ex2_B e = true)).
+Proof. exact ex_hyps. Qed.
+
+(* and the model wraps them as the fixed implementation does: "x ","ab","-","cd" and
+   "fo","o","ba","r" with the line of the hard break ending at position 4 *)
+Example C16_examples_computed :
+  map (fun x => flat (fst x)) (fst (plain_scan (tbl_orc ex1_tbl) 2 ex1_input)) = [[120; 32]; [97; 98]; [45]; [99; 100]] /\
+  snd (plain_scan (tbl_orc ex1_tbl) 2 ex1_input) = Done /\
+  map (fun x => flat (fst x)) (fst (plain_scan (tbl_orc ex2_tbl) 2 ex2_input)) = [[102; 111]; [111]; [98; 97]; [114]] /\
+  cuts_of 7 (fst (plain_scan (tbl_orc ex2_tbl) 2 ex2_input)) = [2; 4; 6; 7]%nat.
+Proof. exact ex_runs. Qed.
